@@ -783,6 +783,13 @@ func ZZ_C09_throw_values() {
 		src = "for i in [1, 2] { p(1); throw " + vals[vi] + "; p(2) }; p(4)"
 		wantErr, want = true, []int{1}
 	}
+	if form == 0 && vi == 0 {
+		// a run-time error raised while a statement stores its results is an error like any other:
+		// the ok target of `v, ok = <-c` (known finding: the suite pins that this one is ignored)
+		zz.ResetTrace()
+		_, cerr := Execute(e, &Options{Debug: false}, "c = make(chan int64, 1); c <- 1; try { v, nosuch[0] = <-c; p(2) } catch e { p(3) }; p(4)")
+		zz.Assert(cerr == nil && zzSameTrace(zz.Trace(), []int{3, 4}), "C09.errors-reach-try/ok-target-of-receive-statement")
+	}
 	id := []string{"top-level", "in-try", "in-called-function", "in-loop"}[form] + "/" + vals[vi]
 	zz.ResetTrace()
 	zz.Budget(300000)
